@@ -435,7 +435,7 @@ func basePlans(tier string) []mc.Plan {
 					for _, v := range []string{"A", "B"} {
 						bounds := []int{0, 1}
 						small := len(c.Steps) <= 1 && len(h.Steps) <= 1
-						if tier == "thorough" && small && soft && capacity == -1 {
+						if tier == "thorough" && small && soft && capacity == -1 && v == "A" {
 							bounds = []int{0, 1, 2}
 						}
 						ps = append(ps, mc.Plan{Scen: scenario(cfg, c, h, v), Bounds: bounds, Split: len(bounds) > 2})
